@@ -1,4 +1,4 @@
-CONSTANTS NT = 2 MaxW = 2 MaxE = 2 MaxR = 1 Buffer = FALSE Deviations = {}
+CONSTANTS NT = 2 MaxW = 2 MaxE = 2 MaxR = 1 Buffer = FALSE Deviations = {} Starts = {"main"}
 SPECIFICATION Spec
 INVARIANT NoLeak
 INVARIANT Complete
